@@ -79,14 +79,18 @@ def name_of(b):
     return f"x{b}"
 
 
-def nested_spawn(path, depth, try_):
+def nested_spawn_expr(path, depth, try_):
     """a thread-spawning macro nested `depth` levels deep; every branch callback logs the thread it runs on"""
     m = "try_join_spawn" if try_ else "join_spawn"
     p0 = ", ".join(str(x) for x in path + [0])
     p1 = ", ".join(str(x) for x in path + [1])
     deeper = (nested_spawn(path + [1], depth - 1, not try_) + "; ") if depth > 1 else ""
-    return (f"let _ = {m}! {{ Some(0u8) |> move |v| {{ rt::nest(&[{p0}]); v }}, "
+    return (f"{m}! {{ Some(0u8) |> move |v| {{ rt::nest(&[{p0}]); v }}, "
             f"Some(1u8) |> move |v| {{ {deeper}rt::nest(&[{p1}]); v }} }}")
+
+
+def nested_spawn(path, depth, try_):
+    return "let _ = " + nested_spawn_expr(path, depth, try_)
 
 
 def with_nest(P, it, b, k, c):
@@ -129,7 +133,12 @@ def branch_src(P, b):
         f, fq = "rt::oinit", "rt::oinit_q"
     else:
         f, fq = "rt::init", "rt::init_q"
-    if B["init"] == "block":
+    if b in P.get("ninit", []):
+        # the initial expression is a bare nested macro invocation; `->` turns its value into the branch's initial value
+        assert P["kind"]["spawn"] and not a
+        path = [b] if len(P["branches"]) > 1 else []
+        s = f"{nested_spawn_expr(path, 1, False)} -> move |_| {f}({iid}, {b})"
+    elif B["init"] == "block":
         s = f"{{ rt::cap({iid}, &[]); {fq}({iid}, {b}) }}"
     else:
         s = f"{f}({iid}, {b})"
